@@ -36,6 +36,13 @@ func genCronSys(r *rand.Rand, n int, tier string) []Case {
 			locs = append(locs, fmt.Sprintf("L%d", j))
 		}
 		ids := []string{"r0", "r1"}
+		if r.Intn(4) == 0 {
+			// names with the separators one might use to qualify a rule id with its location: the jobs of
+			// ("L", "a:b") and ("L:a", "b") are different jobs
+			k = 2
+			locs = []interface{}{"L", "L:a"}
+			ids = []string{"a:b", "b"}
+		}
 		var ops []interface{}
 		for j := 0; j < 3+r.Intn(5); j++ {
 			o := map[string]interface{}{"loc": locs[r.Intn(k)], "id": ids[r.Intn(len(ids))]}
@@ -72,7 +79,7 @@ func genCronSys(r *rand.Rand, n int, tier string) []Case {
 		// 1 case in 3: every location has a write key and every client presents it: with the right key
 		// the behaviour is that of an unprotected location, INCLUDING what the scheduled rules' actions
 		// write when the cron service runs them on a sub-context of the adder's context
-		cases = append(cases, Case{"locs": locs, "ids": []interface{}{"r0", "r1"}, "ops": ops, "linear": r.Intn(2) == 0,
+		cases = append(cases, Case{"locs": locs, "ids": []interface{}{ids[0], ids[1]}, "ops": ops, "linear": r.Intn(2) == 0,
 			"restart": restart, "keyed": r.Intn(3) == 0})
 	}
 	return cases
